@@ -62,11 +62,20 @@ TRUSTED = ["IEEE-754 / libm: the Float instance of the model calls the same corr
            "int -> float coercion, literal powers) are trusted; float literals are read from the SOURCE TEXT as exact decimals (decimal.Decimal, "
            "checked to round to the parsed constant), never through repr; the parameter types come from the signature table of "
            "harness/props/c20_translate.py (individual / data / position = list of floats, obj / n_objs = int, binary individuals = list of ints); "
-           "exceptions of float operations (x / 0.0, sqrt of a negative, overflow) are not rendered.  With it the hand-written models of the 45 "
-           "translated functions (32 of benchmarks/__init__.py, the 8 gp targets, cone / sphere / function1, trap / inv_trap) are tied to the "
+           "exceptions of float operations (x / 0.0, sqrt of a negative, overflow) are not rendered.  With it the hand-written models of the 65 "
+           "translated definitions (all 33 functions of benchmarks/__init__.py incl. rand on its tape, the 8 gp targets, cone / sphere / function1, "
+           "MovingPeaks.__call__(count=False) / globalMaximum / maximums / offlineError, trap / inv_trap / chuang_f1-3 / royal_road1-2 / bin2float, "
+           "the methods of the decorator classes translate / scale and bound._clip/_wrap/_mirror) are tied to the "
            "source BY PROOF (Gen.<f>_eq_model, re-checked by the kernel against the definitions regenerated from the current source on every "
-           "run); the remaining code (rand, chuang_f1-3, royal_road1/2, bin2float, the decorator classes, MovingPeaks, the quality indicators) "
-           "is tied by the differential correspondence only"]
+           "run).  Round-8 rules that are trusted beyond the first set (py2lean docstring, ROUND 8): int(''.join(map(str, bits)), 2) as the binary "
+           "numeral of a 0/1 list (other elements are outside the rendering), int ** int for a non-negative exponent, `while` as fuel-bounded "
+           "iteration whose bound the theorem states, x[i] = v on an unaliased local list in state-passing style, short-circuit and / or, "
+           "methods as functions of the declared fields (fields hold values, not references; MovingPeaks' four parallel per-peak lists are the "
+           "columns of the model's list of peak records; peak functions are an enumeration of cone / sphere / function1; the basis function is "
+           "None or a total pure function), decorator factories / decorator methods as the value handed to the wrapped function, "
+           "random.random() in straight-line code as the next draw of a tape.  The remaining code (MovingPeaks.__init__ / changePeaks / the "
+           "count=True bookkeeping of __call__ / currentError, rotate, noise, bound.__init__ / __call__, the quality indicators, the module-level "
+           "diversity of movingpeaks.py) is tied by the differential correspondence only"]
 ASSUMPTIONS = ["inputs are finite doubles in (or near) the documented range, as Python lists or numpy arrays",
                "binary individuals are sequences of the ints 0/1 (the source rejects True/False and 1.0/0.0 through "
                "int(''.join(map(str, ...)), 2)); the model type for them is List Bool",
@@ -92,8 +101,8 @@ EXPLANATION = ("Front identities (DTLZ1 sum, DTLZ2-6 norm, ZDT f2 = g h), the ex
                "three pfunc paths, and objects built from the same arguments are independent (mp_instances_independent) - "
                "the mpworld stream checks that the implementation shares nothing either; decorator setters install the "
                "parameter in force (translate/scale/rotate_history), checked with re-used and in-place refilled arguments.  "
-               "Translator tie: the bodies of 45 benchmark functions are regenerated from the current source as Lean definitions (harness/py2lean.py) "
-               "and proved equal to the hand-written models over R on all inputs (lean/DeapModel/GenEq/C20.lean.tmpl, 71 theorems audited with the "
+               "Translator tie: the bodies of 65 benchmark functions / methods are regenerated from the current source as Lean definitions (harness/py2lean.py) "
+               "and proved equal to the hand-written models over R / on bit lists on all inputs (lean/DeapModel/GenEq/C20.lean.tmpl, 102 theorems audited with the "
                "others); a changed formula breaks an obligation whatever its size, a behaviour-preserving algebraic rewrite re-proves.  The table of "
                "translated / refused functions of this run is evidence/C20.translated.json.")
 
